@@ -4,7 +4,9 @@ Regression over the seeded changes (seeded/<id>/patch.diff, delivered by indepen
 their property): each patch is applied to a scratch copy of /repo (outside /repo and /verif, removed afterwards) and
 the check of its own property is run, then the checks named in meta.json's "detected_by"; the seed counts as caught
 when one of them exits 1 with a VIOLATION line.  /repo is never patched; evidence goes to .cache/evidence-scratch.
-Exit 0 iff every seed is caught."""
+Exit 0 iff every seed is caught.
+With --neutral: regression over neutral/<id>/all.diff (behaviour-preserving refactorings delivered by independent sub-agents):
+every check listed in its meta.json must exit 0 on the patched scratch copy."""
 import json
 import os
 import re
@@ -46,17 +48,54 @@ def run_seed(args):
     return sid, res, any(v == 1 for v in res.values())
 
 
+def run_neutral(args):
+    nid, tier = args
+    d = os.path.join(VERIF, "neutral", nid)
+    meta = json.load(open(os.path.join(d, "meta.json")))
+    scratch = tempfile.mkdtemp(prefix="gmgneutral_", dir="/tmp")
+    res = {}
+    try:
+        subprocess.run(["rsync", "-a", "--exclude", "_build", "--exclude", ".git", "--exclude", "third-party", "/repo/", scratch + "/"], check=True)
+        r = subprocess.run(["patch", "-p1", "-s", "-i", os.path.join(d, "all.diff")], cwd=scratch, capture_output=True, text=True)
+        if r.returncode != 0:
+            return nid, {"patch": "does not apply (the tree moved on): " + (r.stdout + r.stderr)[-200:]}, True
+        env = dict(os.environ, GMG_REPO=scratch, GMG_EVIDENCE_SCRATCH="1")
+        for c in meta["checks"]:
+            try:
+                r = subprocess.run([os.path.join(VERIF, "check"), c, "--tier", tier], env=env, capture_output=True, text=True, timeout=3600)
+                res[c] = r.returncode
+            except subprocess.TimeoutExpired:
+                res[c] = "timeout"
+    finally:
+        shutil.rmtree(scratch, ignore_errors=True)
+    return nid, res, all(v == 0 for v in res.values())
+
+
 def main():
     argv = sys.argv[1:]
-    jobs, tier, subs = 4, "quick", []
+    jobs, tier, subs, neutral = 4, "quick", [], False
     while argv:
         a = argv.pop(0)
         if a == "-j":
             jobs = int(argv.pop(0))
         elif a == "--tier":
             tier = argv.pop(0)
+        elif a == "--neutral":
+            neutral = True
         else:
             subs.append(a)
+    if neutral:
+        # behaviour-preserving refactorings by independent sub-agents (neutral/<id>/all.diff): every listed check must stay silent
+        ids = sorted(s for s in os.listdir(os.path.join(VERIF, "neutral")) if os.path.exists(os.path.join(VERIF, "neutral", s, "all.diff")))
+        if subs:
+            ids = [s for s in ids if any(x in s for x in subs)]
+        bad = 0
+        with ThreadPoolExecutor(jobs) as ex:
+            for nid, res, silent in ex.map(run_neutral, [(s, tier) for s in ids]):
+                print("%-8s %-10s %s" % (nid, "silent" if silent else "ALARM/BROKEN", " ".join("%s=%s" % kv for kv in res.items())), flush=True)
+                bad += 0 if silent else 1
+        print("%d refactoring sets, %d not silent" % (len(ids), bad))
+        return 1 if bad else 0
     seeds = sorted(s for s in os.listdir(os.path.join(VERIF, "seeded")) if os.path.exists(os.path.join(VERIF, "seeded", s, "patch.diff")))
     if subs:
         seeds = [s for s in seeds if any(x in s for x in subs)]
